@@ -90,13 +90,17 @@ func liveKeyed(ki int) int {
 	return live
 }
 
-type kbo struct{ key string }
+type kbo struct {
+	key   string
+	plain int // (not safe for concurrent use, like any BackOff: see constBackoff)
+}
 
 func (b *kbo) NextBackOff() time.Duration {
+	b.plain++
 	vsched.Observe(oCb, 1, int64(keyIdx(b.key)), 0)
 	return time.Second
 }
-func (b *kbo) Reset() { vsched.Observe(oCb, 0, int64(keyIdx(b.key)), 0) }
+func (b *kbo) Reset() { b.plain = 0; vsched.Observe(oCb, 0, int64(keyIdx(b.key)), 0) }
 
 // newKeyed: outcome(key, run index) scripts every instance.
 func newKeyed(outcome func(key string, run int) int, delay bool, retry bool) *keyed.Keyed[string, int] {
@@ -248,6 +252,107 @@ func init() {
 			vsched.Settle()
 			k.ClearContext()
 			vsched.Settle()
+		},
+	})
+	eng.Register(&eng.Scenario{
+		Name: "keyed-cond-race", Props: []string{"C07"}, ObsNames: stdObs, MustFinish: true,
+		Doc:   "Keyed with key a running: T1 = RestartRoutine(a, cond) / RestartAllRoutines(cond) / ResetRoutine(a, cond) / ResetAllRoutines(cond) (choice; the condition function takes a step and returns true)  ||  T2 = RemoveKey(a) / SyncKeys([]) / ClearContext (choice): once both returned and all is quiet, a key that is not in the set (or a cleared context) has no instance with a live context and nothing executing; key a never executes twice at once",
+		Quick: eng.Bounds{PB: 2}, Thorough: eng.Bounds{PB: 3},
+		Body: func() {
+			k := newKeyed(always(iUntilCancelled), false, false)
+			k.SetContext(bg, false)
+			k.SetKey("a", true)
+			if vsched.Choose(2) == 1 {
+				vsched.Settle()
+			}
+			cond := func(string, int) bool { vsched.Point(); return true }
+			h1, h2 := vsched.Choose(4), vsched.Choose(3)
+			T("T1", func() {
+				switch h1 {
+				case 0:
+					k.RestartRoutine("a", cond)
+				case 1:
+					k.RestartAllRoutines(cond)
+				case 2:
+					k.ResetRoutine("a", nil, cond)
+				case 3:
+					k.ResetAllRoutines(cond)
+				}
+			})
+			T("T2", func() {
+				switch h2 {
+				case 0:
+					k.RemoveKey("a")
+				case 1:
+					k.SyncKeys(nil, false)
+				case 2:
+					k.ClearContext()
+				}
+			})
+			vsched.Settle()
+			_, present := k.GetKey("a")
+			if !present || h2 == 2 {
+				if l := liveKeyed(0); l != 0 {
+					fail("C07.not-cancelled", "key a was removed / the context cleared while a conditional restart was evaluating its condition: %d instance(s) of key a still have a live context at quiescence", l)
+				}
+				if a := vsched.Ctr(kActiveA); a != 0 {
+					fail("C07.not-cancelled", "key a was removed / the context cleared but %d instance(s) are still executing at quiescence", a)
+				}
+			} else if present {
+				fail("C07.not-removed", "key a is still in the set after RemoveKey / SyncKeys([]) returned (no release delay)")
+			}
+			k.ClearContext()
+			vsched.CtrSet(kRemovedA, 1)
+			vsched.Settle()
+		},
+	})
+	eng.Register(&eng.Scenario{
+		Name: "keyed-shared-options", Props: []string{"C06", "C07"}, ObsNames: stdObs, Manual: true,
+		Doc:   "Two goroutines build containers at the same time from one shared option slice that has spare capacity (NewKeyed / NewKeyedWithLogger / NewKeyedRefCount / NewKeyedRefCountWithLogger, choice per goroutine): the constructors do not write into the caller's slice (its spare element stays as it was), every listed option took effect on both containers (release delay), the key sets are independent",
+		Quick: eng.Bounds{PB: 2}, Thorough: eng.Bounds{PB: 3},
+		Body: func() {
+			ctor := func(key string) (keyed.Routine, int) { return nil, 1 }
+			le := discardLogger()
+			backing := make([]keyed.Option[string, int], 2, 4)
+			backing[0] = keyed.WithReleaseDelay[string, int](time.Second)
+			backing[1] = nil
+			shared := backing[:1] // len 1, cap 4: an append would land in backing[1]
+			h := [2]int{vsched.Choose(4), vsched.Choose(4)}
+			for t := 0; t < 2; t++ {
+				how := h[t]
+				T("B", func() {
+					var present func() bool
+					switch how {
+					case 0:
+						k := keyed.NewKeyed(ctor, shared...)
+						k.SetKey("a", false)
+						k.RemoveKey("a")
+						present = func() bool { _, ok := k.GetKey("a"); return ok }
+					case 1:
+						k := keyed.NewKeyedWithLogger(ctor, le, shared...)
+						k.SetKey("a", false)
+						k.RemoveKey("a")
+						present = func() bool { _, ok := k.GetKey("a"); return ok }
+					case 2:
+						k := keyed.NewKeyedRefCount(ctor, shared...)
+						r, _, _ := k.AddKeyRef("a")
+						r.Release()
+						present = func() bool { _, ok := k.GetKey("a"); return ok }
+					case 3:
+						k := keyed.NewKeyedRefCountWithLogger(ctor, le, shared...)
+						r, _, _ := k.AddKeyRef("a")
+						r.Release()
+						present = func() bool { _, ok := k.GetKey("a"); return ok }
+					}
+					if !present() {
+						fail("C06.keyset", "the container was built with WithReleaseDelay (shared option slice, constructor variant %d) but its key vanished at once on removal: the option did not take effect", how)
+					}
+				})
+			}
+			vsched.Settle()
+			if backing[1] != nil {
+				fail("caller-data-modified", "a constructor wrote into the spare capacity of the option slice it was given")
+			}
 		},
 	})
 	eng.Register(&eng.Scenario{
@@ -489,10 +594,10 @@ func init() {
 	})
 	eng.Register(&eng.Scenario{
 		Name: "keyed-withretry", Props: []string{"C07"}, ObsNames: stdObs,
-		Doc:   "Keyed / KeyedRefCount built through the other option spellings (choice): WithRetry(constant back-off config), WithRetry(config) followed by WithRetry(nil) (retry disabled again), the WithLogger constructors with WithExitLogger: key a fails on its first run; with retry configured it runs again by quiescence, without it nothing runs it again; RemoveKey / reference release cancels it and nothing starts afterwards",
+		Doc:   "Keyed / KeyedRefCount built through the other option spellings (choice): WithRetry(constant back-off config), WithRetry(config) followed by WithRetry(nil) (retry disabled again), WithBackoff(zero-interval policy), the WithLogger constructors with WithExitLogger: key a fails on its first run; with retry configured it runs again by quiescence, without it nothing runs it again; RemoveKey / reference release cancels it and nothing starts afterwards",
 		Quick: eng.Bounds{PB: 2}, Thorough: eng.Bounds{PB: 3},
 		Body: func() {
-			how := vsched.Choose(5)
+			how := vsched.Choose(6)
 			le := logrus.NewEntry(logrus.New())
 			le.Logger.SetOutput(io.Discard)
 			conf := &ubackoff.Backoff{BackoffKind: ubackoff.BackoffKind_BackoffKind_CONSTANT, Constant: &ubackoff.Constant{Interval: 1000}}
@@ -514,10 +619,14 @@ func init() {
 				conf = &ubackoff.Backoff{} // every field (also the kind) at its zero value: the default exponential back-off
 			}
 			switch how {
-			case 0, 1, 4:
+			case 0, 1, 4, 5:
 				opts := []keyed.Option[string, int]{keyed.WithRetry[string, int](conf)}
 				if how == 1 {
 					opts = append(opts, keyed.WithRetry[string, int](nil))
+				}
+				if how == 5 {
+					// a policy whose interval is zero: retry at once (still a retry, not "stop")
+					opts = []keyed.Option[string, int]{keyed.WithBackoff[string, int](func(string) cbackoff.BackOff { return &cbackoff.ZeroBackOff{} })}
 				}
 				k := keyed.NewKeyed(ctor, opts...)
 				k.SetContext(bg, false)
